@@ -22,8 +22,8 @@ RULE = (
     "Hypothesis draws signatures of 1..5 array-annotated parameters (+ return annotation half of the time) from the dim "
     "grammar (symbolic axes only over names plainly bound by an earlier parameter), shapes derived against an evolving model "
     "context and then 0-2 single-axis changes applied to a non-first argument (cross-argument conflicts); every case is executed for the identity order and up to 2 other valid permutations x "
-    "{positional, keyword, mixed; with a positional-only prefix / keyword-only suffix of 0..2 parameters} x {typeguard, beartype} x {jaxtyped(typechecker=..), old jaxtyped(checker(f))} plus a jaxtyped "
-    "dataclass per checker (flat, and split into a jaxtyped base class and a jaxtyped subclass). Non-trivial = >=2 parameters sharing a name or *name AND (unsatisfiable only through a cross-argument "
+    "{positional, keyword, mixed; with a positional-only prefix / keyword-only suffix of 0..3 parameters, defaults on some keyword-only parameters, optionally a leading int parameter named like an axis} x {typeguard, beartype} x {jaxtyped(typechecker=..), old jaxtyped(checker(f))} plus a jaxtyped "
+    "dataclass per checker (flat; split into a jaxtyped base class and a jaxtyped subclass; a plain subclass of an undecorated dataclass). Non-trivial = >=2 parameters sharing a name or *name AND (unsatisfiable only through a cross-argument "
     "conflict -- every argument alone matches -- or satisfiable with a '#'/variadic name shared between arguments); distinct by "
     "(specs, shapes)."
 )
@@ -116,10 +116,11 @@ def check_case(ctx, case, extra_orders):
             variants = [(o, None) for o in orders[:2]]
             if len(case["params"]) >= 2:
                 variants.append((orders[0], 1 + (len(vec) % (len(case["params"]) - 1))))  # base class + subclass
+            variants.append((orders[0], "plain-subclass"))
             for order, split in variants:
-                D = gc.build_dataclass(case, order, ck, split)
+                D = gc.build_plain_subclass_dataclass(case, order, ck) if split == "plain-subclass" else gc.build_dataclass(case, order, ck, split)
                 for style in ("pos", "kw"):
-                    args, kwargs = gc.call_args(case, order, style)
+                    args, kwargs = gc.call_args(case, order, style, with_int=False)
                     try:
                         D(*args, **kwargs)
                         got = "ok"
@@ -147,7 +148,12 @@ def run(ctx):
     def cases(data):
         case = data.draw(gc.call_case(), label="case")
         case["npo"] = data.draw(st.sampled_from([0, 0, 1, 2]))
-        case["nko"] = data.draw(st.sampled_from([0, 0, 1, 2]))
+        case["nko"] = data.draw(st.sampled_from([0, 0, 1, 2, 3]))
+        n = len(case["params"])
+        case["ko_defaults"] = [pos for pos in range(n) if data.draw(st.integers(0, 2)) == 0]  # applies to keyword-only positions only
+        if data.draw(st.integers(0, 3)) == 0 and case["npo"] == 0:
+            # a plain int parameter named like an axis, with a value unlike any bound size: it is not that axis
+            case["int_param"] = [data.draw(st.sampled_from(["n", "a", "b"])), 11]
         vo = gc.valid_orders(case)
         extra = []
         if len(vo) > 1:
